@@ -43,6 +43,7 @@ def cons_build(spec):
                 kw["register_name"] = g[2]
             if g[3] is not None:
                 kw["p0"] = g[3]
+            if g[4] is not None:
                 kw["p1"] = g[4]
             c.add(gates.M(*g[1], **kw))
     return c
@@ -54,7 +55,7 @@ def cons_check(r, spec, nshots, freq_first):
     regs = [g for g in spec["gates"] if g[0] == "M"]
     qubits = [q for g in regs for q in g[1]]
     k = len(qubits)
-    noisy_m = any(g[3] is not None for g in regs)
+    noisy_m = any((g[3] or 0) > 0 or (g[4] or 0) > 0 for g in regs)  # = has_bitflip_noise()
     if freq_first:
         r.frequencies()
     rows = np.asarray(r.samples())
@@ -84,6 +85,16 @@ def cons_check(r, spec, nshots, freq_first):
         pstr = ["".join(str(int(b)) for b in row) for row in part]
         if nm not in rf or collections.Counter(rf[nm]) != collections.Counter(pstr):
             bad.append("frequencies(registers=True)[%r] is not the histogram of the register's columns" % nm)
+    # the combined measurement gate carries every register's own readout-noise maps
+    mg = r.measurement_gate
+    for m in r.measurements:
+        for d in (0, 1):
+            for q in m.target_qubits:
+                if abs(float(mg.bitflip_map[d].get(q, 0.0)) - float(m.bitflip_map[d].get(q, 0.0))) > 1e-15:
+                    bad.append("combined measurement gate: %d->%d flip probability of qubit %d is %r, register %r says %r"
+                               % (d, 1 - d, q, mg.bitflip_map[d].get(q), m.register_name, m.bitflip_map[d].get(q)))
+    if spec.get("expect") is not None and set(strs) != {spec["expect"]}:
+        bad.append("samples contain %r, the only possible outcome is %r" % (sorted(set(strs)), spec["expect"]))
     try:
         p = np.asarray(r.probabilities(qubits), dtype=float).ravel()
     except Exception as e:
@@ -121,8 +132,17 @@ def cons_same(a, b, spec):
     return bad
 
 
-def cons_run(spec, nshots, seed, freq_first, save_before):
-    """returns (stage, problems) of the first stage with problems, or None."""
+def cons_run(spec, nshots, seed, freq_first, save_before, batch=None):
+    """returns (stage, problems) of the first stage with problems, or None.
+    `batch`: shot batch size set through the public qibo.set_batch_size for the duration."""
+    if batch is not None:
+        import qibo
+        old = qibo.get_batch_size()
+        qibo.set_batch_size(batch)
+        try:
+            return cons_run(spec, nshots, seed, freq_first, save_before)
+        finally:
+            qibo.set_batch_size(old)
     be = NumpyBackend()
     be.set_seed(seed)
     c = cons_build(spec)
@@ -188,14 +208,47 @@ def rand_spec(rng, kind):
     parts = [qs] if nreg == 1 else [qs[: len(qs) // 2], qs[len(qs) // 2:]]
     flip = rng.random() < 0.5
     for i, p in enumerate(parts):
-        p0 = rng.choice([0.1, 0.25, 0.4]) if flip else None
-        gs.append(["M", p, rng.choice([None, "reg%c" % (97 + i)]), p0, None if p0 is None else rng.choice([0.0, 0.2, 0.35])])
+        # readout noise per register: none / symmetric through one keyword / asymmetric
+        style = rng.choice(["none", "p0only", "p1only", "both", "both"]) if flip else "none"
+        p0 = rng.choice([0.1, 0.25, 0.4]) if style in ("p0only", "both") else None
+        p1 = rng.choice([0.0, 0.2, 0.35]) if style in ("p1only", "both") else None
+        gs.append(["M", p, rng.choice([None, "reg%c" % (97 + i)]), p0, p1])
     return {"n": n, "dm": dm, "gates": gs}
 
 
-def replay(spec, nshots, seed, freq_first, save_before):
+def deterministic_spec(rng):
+    """X gates only, 2..3 registers of one or two qubits, flip probabilities in {0, 1} given as
+    p0 only / p1 only / both / none, in every register order: the outcome is known exactly."""
+    nreg = rng.choice([2, 2, 3])
+    widths = [rng.randint(1, 2) for _ in range(nreg)]
+    n = sum(widths)
+    qs = list(range(n))
+    rng.shuffle(qs)
+    ones = set(q for q in range(n) if rng.random() < 0.5)
+    gs = [["X", q] for q in sorted(ones)]
+    expect, off = "", 0
+    for i, w in enumerate(widths):
+        part = qs[off:off + w]
+        off += w
+        style = rng.choice(["none", "p0only", "p1only", "both", "both", "both"])
+        a, b = rng.choice([0.0, 1.0]), rng.choice([0.0, 1.0])
+        p0 = a if style in ("p0only", "both") else None
+        p1 = b if style in ("p1only", "both") else None
+        e0 = p0 if p0 is not None else (p1 if p1 is not None else 0.0)  # 0 -> 1
+        e1 = p1 if p1 is not None else (p0 if p0 is not None else 0.0)  # 1 -> 0
+        for q in part:
+            bit = 1 if q in ones else 0
+            flip = e1 if bit else e0
+            expect += str(bit ^ int(flip))
+        gs.append(["M", part, rng.choice([None, "reg%c" % (97 + i)]), p0, p1])
+    if not gs or gs[0][0] != "X":
+        gs.insert(0, ["X", 0]); gs.insert(0, ["X", 0])
+    return {"n": n, "dm": rng.random() < 0.3, "gates": gs, "expect": expect}
+
+
+def replay(spec, nshots, seed, freq_first, save_before, batch=None):
     return CONS_SRC + f"""
-out = cons_run({spec!r}, {nshots}, {seed}, {freq_first}, {save_before})
+out = cons_run({spec!r}, {nshots}, {seed}, {freq_first}, {save_before}, {batch})
 print(out)
 raise SystemExit(1 if out else 0)
 """
@@ -223,6 +276,33 @@ def run_suites(ctx):
             if key not in reported:
                 reported.add(key)
                 ctx.fail(key, f"a result object ({stage}) of circuit {spec['gates']} (density_matrix={spec['dm']}, nshots={nshots}) is not consistent with itself / with the saved result: " + "; ".join(probs[:3]),
+                         replay(*args), observed="; ".join(probs[:3]), broken=["C14_search_result_consistency"])
+    # shot batches: nshots around exact multiples of a small batch size, either accessor first
+    plans = []
+    for j in range(40 if ctx.thorough else 14):
+        B = rng.choice([2, 3, 4, 5, 7])
+        nshots = rng.choice([B, 2 * B, 3 * B, B - 1, B + 1, 2 * B + 1]) or 1
+        spec = rand_spec(rng, ["plain", "plaindm", "plain", "noise"][j % 4])
+        plans.append((spec, nshots, rng.randrange(10 ** 6), j % 3 != 2, rng.random() < 0.3, B))
+    # readout-noise maps of several registers, exact outcomes
+    for j in range(60 if ctx.thorough else 24):
+        plans.append((deterministic_spec(rng), rng.choice([1, 2, 3, 6]), rng.randrange(10 ** 6), rng.random() < 0.5, rng.random() < 0.3, None))
+    for args in plans:
+        spec, nshots = args[0], args[1]
+        ctx.case(("result-consistency2", json.dumps(spec), nshots, args[3], args[4], args[5]))
+        ctx.stat("consistency_batch" if args[5] else "consistency_readout_maps")
+        total += 1
+        try:
+            out = cons_run(*args)
+        except Exception as e:
+            out = ("raises", ["%s: %s" % (type(e).__name__, e)])
+        if out:
+            bad += 1
+            stage, probs = out
+            key = "result-consistency:%s" % stage + (":batch" if args[5] else "")
+            if key not in reported:
+                reported.add(key)
+                ctx.fail(key, f"a result object ({stage}) of circuit {spec['gates']} (density_matrix={spec['dm']}, nshots={nshots}, shot batch size {args[5] or 'default'}, frequencies first: {args[3]}) is not consistent: " + "; ".join(probs[:3]),
                          replay(*args), observed="; ".join(probs[:3]), broken=["C14_search_result_consistency"])
     ctx.ob("C14_search_result_consistency", bad == 0, "search",
            f"{bad} of {total} executions give a result object (fresh or reloaded) that is not consistent" if bad else "")
